@@ -209,3 +209,44 @@ package ast
 //@   invariant [others] OthersKept()
 //@ callee f(pos parsley.Pos) (np parsley.Pos)
 //@   include ast.rpcallback
+
+//@ -- ---------------------------------------------------------------- tree passes over ast nodes (C13)
+//@ -- a list of alternatives is walked through its first alternative
+//@ func (nl NodeList) Walk(f func(n parsley.Node) bool) (stop bool)
+//@   props C13
+//@   requires len(nl) >= 1 && f != nil && cloinv(f)
+//@   ensures  parsley.GhostVisitLen > old(parsley.GhostVisitLen) && parsley.TraceKept(old(parsley.GhostVisitLen)) && parsley.StopsAtLast(old(parsley.GhostVisitLen), stop) && parsley.WalkedKept() && cloinv(f)
+//@   ensures  [first;C13] parsley.GhostWalked(nl[0])
+//@   assigns  captures(f), fields[parsley.Node](), parsley.GhostVisitLen, parsley.GhostVisit, parsley.GhostStop, parsley.GhostWalked
+//@ callee f(n parsley.Node) (stop bool)
+//@   include parsley.visitor
+
+//@ -- Transform of a non-terminal: its interpreter's own transformer if it has one (called once, with this node);
+//@ -- otherwise every child slot receives the result of transforming the child, and the node itself is returned
+//@ func (n *NonTerminalNode) Transform(userCtx interface{}) (r parsley.Node, err parsley.Error)
+//@   props C13
+//@   logs parsley.NodeTransformer.TransformNode
+//@   requires n != nil && forall k int :: 0 <= k && k < len(n.children) ==> n.children[k] != nil
+//@   ensures  [result;C04] (r == nil) != (err == nil)
+//@   ensures  r != nil ==> parsley.NodeOK(r)
+//@   ensures  err != nil ==> err.Pos() >= 0
+//@   ensures  [own-transformer;C13] old(n.interpreter != nil && typeis[parsley.NodeTransformer](n.interpreter)) ==> ncalls() == 1 && callarg[interface{}](1, 1) == userCtx && callarg[parsley.Node](1, 2) == parsley.Node(n) && same(r, callres[parsley.Node](1, 0)) && same(err, callres[parsley.Error](1, 1))
+//@   ensures  [children;C13] old(n.interpreter == nil || !typeis[parsley.NodeTransformer](n.interpreter)) && err == nil ==> same(r, parsley.Node(n)) && parsley.GhostTrCalls >= old(parsley.GhostTrCalls) + len(n.children)
+//@   ensures  [mark-kept] parsley.TrKept()
+//@   ensures  [slots-kept] err == nil ==> parsley.SlotsKept()
+//@   assigns  fields[parsley.Node]("children"), elems[[]parsley.Node](), parsley.GhostIsTr, parsley.GhostTrCalls
+//@ loop 1 (i rangeindex, kids []parsley.Node)
+//@   invariant 0 <= i && i <= len(kids) && n != nil && same(kids, n.children) && parsley.TrKept() && parsley.SlotsKept()
+//@   invariant [count] parsley.GhostTrCalls >= old(parsley.GhostTrCalls) + i
+
+//@ -- StaticCheck of a non-terminal: its interpreter's checker (if it has one) is asked once, with this node, and the
+//@ -- schema it returns is recorded on the node; an error aborts without recording
+//@ func (n *NonTerminalNode) StaticCheck(userCtx interface{}) (err parsley.Error)
+//@   props C13
+//@   logs parsley.StaticChecker.StaticCheck
+//@   requires n != nil
+//@   ensures  err != nil ==> err.Pos() >= 0
+//@   ensures  [checker;C13] old(n.interpreter != nil && typeis[parsley.StaticChecker](n.interpreter)) ==> ncalls() == 1 && callarg[interface{}](1, 1) == userCtx && callarg[parsley.NonTerminalNode](1, 2) == parsley.NonTerminalNode(n) && same(err, callres[parsley.Error](1, 1))
+//@   ensures  [schema;C13] old(n.interpreter != nil && typeis[parsley.StaticChecker](n.interpreter)) && err == nil ==> n.schema == callres[interface{}](1, 0)
+//@   ensures  [no-checker;C13] old(n.interpreter == nil || !typeis[parsley.StaticChecker](n.interpreter)) ==> ncalls() == 0 && err == nil && n.schema == old(n.schema)
+//@   assigns  fields[parsley.Node]()
